@@ -136,8 +136,22 @@ def abstract_arith(exprs):
         if not z3.is_app(e) or e.num_args() == 0:
             cache[k] = e
             return e
-        args = [go(e.arg(i)) for i in range(e.num_args())]
         dk = e.decl().kind()
+        if dk == z3.Z3_OP_BMUL:
+            # * is associative and commutative: flatten the product tree and order the factors, so that two renderings of the
+            # same product (one of them re-associated by a simplifier) abstract to the same term
+            leaves = []
+
+            def flat(x):
+                if z3.is_app(x) and x.decl().kind() == z3.Z3_OP_BMUL:
+                    for i in range(x.num_args()):
+                        flat(x.arg(i))
+                else:
+                    leaves.append(go(x))
+            flat(e)
+            args = sorted(leaves, key=lambda a: a.get_id())
+        else:
+            args = [go(e.arg(i)) for i in range(e.num_args())]
         if dk in hard and z3.is_bv(e):
             w = e.size()
             r = args[0]
